@@ -238,21 +238,27 @@ Definition rx_construct (g : mgraph) : res rxc :=
   end.
 
 (* RxBackend.write: node data keyed by node_indices() (or node_id_dict[i]) *)
+Definition rx_translate (idmap : option (list (Z * Z))) (g : dgraph) : res dgraph :=
+  let tr := fun i => match idmap with
+                     | None => Ok i
+                     | Some m => match klookup Z.eqb i m with Some j => Ok j | None => Err KeyError end
+                     end in
+  let! nodes := mapM (fun nd => let! j := tr (fst nd) in Ok (j, snd nd)) (d_nodes g) in
+  let! edges := mapM (fun ed => let! u := tr (fst (fst ed)) in let! v := tr (snd (fst ed)) in Ok ((u, v), snd ed)) (d_edges g) in
+  Ok (mkdg nodes edges).
+
+(* the dict graph handed to write_dicts: nothing at all for a graph without nodes *)
+Definition rx_target (idmap : option (list (Z * Z))) (g : dgraph) : res dgraph :=
+  match d_nodes g with
+  | [] => Ok (mkdg [] [])
+  | _ => rx_translate idmap g
+  end.
+
 Definition rx_write (k : skind) (directed : bool) (g : dgraph) (idmap : option (list (Z * Z)))
            (axes : option (list string)) (mdtok axtok : Z) : M unit :=
   bind (lift (fresh_md directed axes mdtok axtok)) (fun md =>
-  match d_nodes g with
-  | [] => write_dicts k (mkdg [] []) [] [] md
-  | _ =>
-      let tr := fun i => match idmap with
-                         | None => Ok i
-                         | Some m => match klookup Z.eqb i m with Some j => Ok j | None => Err KeyError end
-                         end in
-      bind (lift (mapM (fun nd => let! j := tr (fst nd) in Ok (j, snd nd)) (d_nodes g))) (fun nodes =>
-      bind (lift (mapM (fun ed => let! u := tr (fst (fst ed)) in let! v := tr (snd (fst ed)) in Ok ((u, v), snd ed))
-                       (d_edges g))) (fun edges =>
-      write_dicts k (mkdg nodes edges) (keys_of (map snd nodes)) (keys_of (map snd edges)) md))
-  end).
+  bind (lift (rx_target idmap g)) (fun g' =>
+  write_dicts k g' (keys_of (map snd (d_nodes g'))) (keys_of (map snd (d_edges g'))) md)).
 
 (* the adapter view of a rustworkx graph read from a geff: node ids through the inverse of to_rx_id_map *)
 Definition inv_map (m : list (Z * Z)) (i : Z) : option Z :=
@@ -295,6 +301,23 @@ Definition prop_arr (p : prop) : arr :=
 Definition stack_cols (n : nat) (dt : dtype) (cols : list arr) : list Z :=
   flat_map (fun i => map (fun c => cast_payload (a_dt c) dt (nth i (a_flat c) 0%Z)) cols) (seq 0 n).
 
+(* the position attribute: zeros of shape (0,1) for an empty graph, else the stacked axis properties *)
+Definition sg_position (n : nat) (names : list string) (nattrs : list (string * arr)) : res (arr * nat) :=
+  if Nat.eqb n 0 then Ok (mkarr DF64 [0%nat; 1%nat] [], 1%nat)
+  else
+    let! cols := mapM (fun nm => match alookup nm nattrs with Some a => Ok a | None => Err KeyError end) names in
+    match cols with
+    | [] => Err ValueError                                   (* need at least one array to stack *)
+    | c0 :: _ =>
+        if negb (forallb (fun c => natlist_eqb (a_shape c) (a_shape c0)) cols) then Err ValueError
+        else match result_type (map a_dt cols) with
+             | None => Err ValueError
+             | Some dt =>
+                 if negb (Nat.eqb (ndim c0) 1) then Err ValueError   (* position of rank 3: add_nodes rejects the buffer *)
+                 else Ok (mkarr dt [n; length cols] (stack_cols n dt cols), length cols)
+             end
+    end.
+
 Definition sg_construct (g : mgraph) (pos : string) : res sgc :=
   let md := g_md g in
   let! ids := node_list (g_nids g) in
@@ -305,21 +328,7 @@ Definition sg_construct (g : mgraph) (pos : string) : res sgc :=
                  end) in
   let nattrs := map (fun kv => (fst kv, prop_arr (snd kv))) (g_nprops g) in
   let eattrs := map (fun kv => (fst kv, prop_arr (snd kv))) (g_eprops g) in
-  let! posinfo :=
-    (if Nat.eqb n 0 then Ok (mkarr DF64 [0%nat; 1%nat] [], 1%nat)
-     else
-       let! cols := mapM (fun nm => match alookup nm nattrs with Some a => Ok a | None => Err KeyError end) names in
-       match cols with
-       | [] => Err ValueError                                   (* need at least one array to stack *)
-       | c0 :: _ =>
-           if negb (forallb (fun c => natlist_eqb (a_shape c) (a_shape c0)) cols) then Err ValueError
-           else match result_type (map a_dt cols) with
-                | None => Err ValueError
-                | Some dt =>
-                    if negb (Nat.eqb (ndim c0) 1) then Err ValueError   (* position of rank 3: add_nodes rejects the buffer *)
-                    else Ok (mkarr dt [n; length cols] (stack_cols n dt cols), length cols)
-                end
-       end) in
+  let! posinfo := sg_position n names nattrs in
   let (position, ndims) := posinfo in
   (* for name in position_attrs: del node_attrs[name] *)
   let! nattrs1 := foldM (fun acc nm => if ahas nm acc then Ok (adel nm acc) else Err KeyError) names nattrs in
